@@ -17,6 +17,7 @@ CONSTANTS MaxSteps,   \* bound on behaviour length for the exhaustive check
           ReopenC,    \* mem | file
           RenderViaC, \* doc | legacy
           RenderImgC, \* none | png | jpeg | gif
+          PrepC,      \* Render: is the template document first given placeholder content? (subset of BOOLEAN)
           TkC,        \* text-template shapes
           MkC,        \* Markdown shapes
           MdViaC,     \* string | file
@@ -38,7 +39,7 @@ Ops ==
   \cup (IF On("AddStyle") THEN {[op |-> "AddStyle", tc |-> t, via |-> v] : t \in TextC, v \in StyleViaC} ELSE {})
   \cup (IF On("PageSet") THEN {[op |-> "PageSet", which |-> w] : w \in PageC} ELSE {})
   \cup (IF On("Reopen") THEN {[op |-> "Reopen", via |-> v] : v \in ReopenC} ELSE {})
-  \cup (IF On("Render") THEN {[op |-> "Render", tc |-> t, via |-> v, img |-> g] : t \in TextC, v \in RenderViaC, g \in RenderImgC} ELSE {})
+  \cup (IF On("Render") THEN {[op |-> "Render", tc |-> t, via |-> v, img |-> g, prep |-> p] : t \in TextC, v \in RenderViaC, g \in RenderImgC, p \in PrepC} ELSE {})
   \cup (IF On("RenderText") THEN {[op |-> "RenderText", tk |-> k, tc |-> t] : k \in TkC, t \in TextC} ELSE {})
   \cup (IF On("ConvertMd") THEN {[op |-> "ConvertMd", mk |-> k, tc |-> t, via |-> v] : k \in MkC, t \in TextC, v \in MdViaC} ELSE {})
 
